@@ -178,3 +178,12 @@ func Regroup(data []byte, from, to uint, pad bool) (out []byte, leftover uint, l
 	}
 	return
 }
+
+// Bech32Syndrome returns the 6 remainder symbols of hrp-expansion||symbols with the final 1
+// removed, so a valid word has the all-zero syndrome.
+func Bech32Syndrome(hrp string, symbols []byte) []byte {
+	v := append(bech32HrpExpand(hrp), symbols...)
+	rem := polyRem(v, bech32Gen)
+	rem[5] ^= 1
+	return rem
+}
